@@ -465,7 +465,7 @@ func TestOrderUnderBacklog(t *testing.T) {
 		if err != nil {
 			t.Fatal(err)
 		}
-		n := 300 + 100*round
+		n := 1200 + 400*round
 		c := map[string]int{"transitions": 2 * n, "round": round}
 		fail := func(msg string) {
 			shared = nil
@@ -530,6 +530,45 @@ func TestOrderUnderBacklog(t *testing.T) {
 		}
 		if count != 2*n {
 			fail(fmt.Sprintf("%d notifications for %d transitions", count, 2*n))
+		}
+		// second phase: many transitions made by ONE request (a SUBSCRIBE / UNSUBSCRIBE packet with many topics), i.e.
+		// without a network round trip in between, again behind a watcher that is not reading
+		const m = 900
+		sp := packets.NewControlPacket(packets.Subscribe).(*packets.SubscribePacket)
+		up := packets.NewControlPacket(packets.Unsubscribe).(*packets.UnsubscribePacket)
+		sp.MessageID, up.MessageID = 9, 10
+		for i := 0; i < m; i++ {
+			sp.Topics = append(sp.Topics, fmt.Sprintf("%s/a/t%d/", e.key, i))
+			sp.Qoss = append(sp.Qoss, 0)
+			up.Topics = append(up.Topics, fmt.Sprintf("%s/a/t%d/", e.key, i))
+		}
+		for phase, pk := range []packets.ControlPacket{sp, up} {
+			e.perm.Pause()
+			if err := a.Send(pk); err != nil {
+				e.perm.Resume()
+				fail(err.Error())
+			}
+			time.Sleep(150 * time.Millisecond)
+			e.perm.Resume()
+			ack, ev := byte(packets.Suback), "subscribe"
+			if phase == 1 {
+				ack, ev = packets.Unsuback, "unsubscribe"
+			}
+			if _, _, err := a.Until(ack); err != nil {
+				fail(fmt.Sprintf("%s of %d topics behind a slow watcher: %v", ev, m, err))
+			}
+			seen, err := e.drain()
+			if err != nil {
+				fail(err.Error())
+			}
+			if len(seen) != m {
+				fail(fmt.Sprintf("%d %s notifications for %d transitions made by one request", len(seen), ev, m))
+			}
+			for i, nt := range seen {
+				if nt.Who.ID != id || nt.Event != ev || nt.Channel != fmt.Sprintf("a/t%d/", i) {
+					fail(fmt.Sprintf("%s notification #%d is for %s (%s); the connection made transition #%d on a/t%d/: order not preserved", ev, i, nt.Channel, nt.Event, i, i))
+				}
+			}
 		}
 		a.Close()
 		e.drain()
